@@ -1,5 +1,6 @@
 import HexVerif.Xcmp.Compile
 import HexVerif.Lemmas.XcmpV1
+import HexVerif.Lemmas.XcmpV2
 import Drivers.Util
 /-!
   Line-protocol driver for the Lean model of xcmp (`Xcmp.stages`, `Xcmp.compile`); mirrors
@@ -150,11 +151,15 @@ def asmListing (ds : List Dir) (img : Image) : String :=
 def v1Field (P : X.Program) : String :=
   if C01s.isV1 P then (if C01s.v1Ok P then "1" else "0") else "-"
 
+/-- `W=`: the same for the class V2 (several procedures; `C01s.isV2` / `C01s.v2Ok`, theorem `C01_v2_partial`). -/
+def v2Field (P : X.Program) : String :=
+  if C01s.isV2 P then (if C01s.v2Ok P then "1" else "0") else "-"
+
 def handle (line : String) : String :=
   match parseProgram line with
   | .error w => "bad-input " ++ w
   | .ok P =>
-    (fun r => r ++ " V=" ++ v1Field P) <|
+    (fun r => r ++ " V=" ++ v1Field P ++ " W=" ++ v2Field P) <|
     match stages P with
     | .error e => let c := "!" ++ e.className; s!"I={c} L={c} O={c} S={c} B={c}"
     | .ok s =>
